@@ -65,6 +65,33 @@ def run(tier="quick"):
                     continue
                 chk.ob("P1", o.fn.name, "progress:loop%d" % k, o.ok, loc=o.fn.loc(o.node), detail="%s: %s" % (o.fn.name, o.detail),
                        proof="a cursor/index strictly advances on every path through the body")
+    # S5: an evaluation that reports success has replaced the token list: a store of a fresh list into self->tokens dominates
+    # every successful return of the tok scanner (an object that is evaluated again - with an empty source, say - must not keep
+    # the tokens of the source it was evaluated on before)
+    from .. import nullness as _nl
+    tf = prog.fn("spif_tok_eval")
+    if tf is not None and tf.body is not None and tf.cfg is not None:
+        tcfg = _nl.prepared_cfg(tf, NORETURN)
+        stores = []
+        for x in walk(tf.body):
+            if x.get("k") == "assign" and x.get("op") == "=":
+                l = X.strip(x["ch"][0])
+                if l is not None and l.get("k") == "member" and l.get("n") == "tokens" and any(y.get("k") == "call" for y in walk(x["ch"][1])):
+                    stores.append(x)
+        for c_ in X.calls_in(tf.body):          # the reset moved into a unit-local helper
+            g_ = tf.unit.functions.get(X.callee_name(c_) or "")
+            if g_ is not None and g_.body is not None and any(
+                    y.get("k") == "assign" and (X.strip(y["ch"][0]) or {}).get("k") == "member" and X.strip(y["ch"][0]).get("n") == "tokens" and
+                    any(z.get("k") == "call" for z in walk(y["ch"][1])) for y in walk(g_.body)):
+                stores.append(c_)
+        rets = [x for x in walk(tf.body) if x.get("k") == "return" and x.get("val") is not None and (X.const_val(x["val"]) or 0) != 0
+                and not any(m_.startswith("b:ASSERT") or m_.startswith("b:REQUIRE") for m_ in x.get("m", []))]
+        bad = [r for r in rets if not any(tcfg.node_dominates(s_["i"], r["i"]) for s_ in stores)]
+        chk.rule("S5", "a successful evaluation has replaced the token list")
+        chk.ob("S5", tf.name, "token-list-replaced", bool(rets) and not bad, loc=tf.loc(bad[0]) if bad else tf.loc(tf.body),
+               detail="%s reports success on a path on which it has not stored a new token list: the object keeps the tokens of the "
+                      "source it was evaluated on before" % tf.name,
+               proof="a store of a fresh list into self->tokens dominates every successful return")
     # S2: the word loops treat every word on its own: only the variables named by the loop header survive an iteration
     nitem = 0
     for nm in ("spiftool_get_word", "spiftool_get_pword", "spiftool_num_words"):
